@@ -18,4 +18,20 @@ def with_capacity (_n : UInt64) : Bytes := []
 /-- `v.extend_from_slice(x)` -/
 def extend (v x : Bytes) : Bytes := v ++ x
 
+/-- the closure of `collectRange` applied to `i, i+1, …`, `n` times; its failure (an `Err` value of the
+closure, a device error, a panic) ends the iteration -/
+def collectN {α} (f : UInt64 → Model.M α) : Nat → UInt64 → Model.M (List α)
+  | 0, _ => pure []
+  | n + 1, i => do
+    let x ← f i
+    let rest ← collectN f n (i + 1)
+    pure (x :: rest)
+
+/-- `(lo..hi).map(|i| f(i)).collect::<Result<Vec<_>, _>>()?`: the closure (whose value is a `Result`) runs
+for `i = lo, lo+1, …, hi-1` in order; the first `Err` ends the iteration and is the error of the whole
+expression; otherwise the vector of the `Ok` values (the adapter reserves nothing in advance: its lower
+size hint is 0) -/
+def collectRange {α} (lo hi : UInt64) (f : UInt64 → Model.M α) : Model.M (List α) :=
+  collectN f (hi.toNat - lo.toNat) lo
+
 end Rs.B
